@@ -105,12 +105,48 @@ def lensAgree (c : Case) : Bool :=
   | .error _ => false
   | .ok o => (o.d1.root.get o.d1.root.root).visLen == (o.d2.root.get o.d2.root.root).visLen
 
-/-- `c19-stale-visible-length`: row 1223 (split-edit, equal: split-1 vs replace) converges in XML, but
-    `Tree.Len()` differs between the two editors: d2 applies the remote split to the paragraph it has
-    already tombstoned and `SplitElement` adds the tombstoned sibling's padding to the ancestors'
-    VisibleLength (corpus/C19/tree-stale-visible-length.trace shows the next local edit going astray) -/
-theorem stale_length_witness :
-    converges (row 1223) = true ∧ lensAgree (row 1223) = false := by
+/-! `c19-stale-visible-length` (repaired: hooks/fix-c19-split-tombstoned-visible-length.patch, 7d079773; switch
+    `fixSplitTombstonedLength` of Model/Tree.lean) -/
+
+/-- the step of `SplitElement` that went wrong, on `<r><p>ab</p></r>` with the paragraph tombstoned: the split sibling (born
+    tombstoned) is linked in after it and the length bookkeeping runs, with (`true`) or without (`false`) the repair;
+    result: the root's cached VisibleLength (`Tree.Len()`) and the size of the visible XML `<r></r>` (= 0) -/
+def splitTombstonedLen (fix : Bool) : Option (Int × Nat) :=
+  let t0 := initialTree 1 [⟨0, [114], [], []⟩, ⟨1, [112], [], []⟩, ⟨2, textType, [97, 98], []⟩]
+  match (t0.get t0.root).children with
+  | [p] =>
+    let t1 := t0.removeNode p ⟨5, 1, 2⟩
+    let nd := t1.get p
+    let (ta, s) := t1.alloc { mkNode ⟨⟨6, 1, 3⟩, 0⟩ nd.type [] nd.attrs with removedAt := nd.removedAt }
+    match ta.insertAfterInternal t0.root s p with
+    | .ok t2 =>
+      let t3 := t2.addLensSplitW fix s
+      some ((t3.get t3.root).visLen, t3.toXMLCodes.length - "<r></r>".length)
+    | .error _ => none
+  | _ => none
+
+/-- before the repair: a remote split applied to a paragraph the replica had already tombstoned added the tombstoned
+    sibling's two tags to the ancestors' VisibleLength: `Tree.Len()` = 2 for the empty `<r></r>` (on that replica only; the
+    next index-based edit went astray, corpus/C19/tree-stale-visible-length.trace) -/
+theorem stale_length_witness_off : splitTombstonedLen false = some (2, 0) := by decide +kernel
+
+/-- repaired: the born-tombstoned sibling adds nothing to the visible length -/
+theorem stale_length_step_fixed : splitTombstonedLen true = some (0, 0) := by decide +kernel
+
+/-- the eight rows of the matrix (split-edit family: a split against a delete / replace of the split paragraph) on which
+    `Tree.Len()` used to differ between the two editors -/
+def staleRows : List Nat := [1223, 1224, 1231, 1232, 1255, 1256, 1263, 1264]
+
+/-- both editors and the wire copy hold exact cached lengths and agree on `Tree.Len()` -/
+def lensExactBoth (c : Case) : Bool :=
+  match runCase c with
+  | .error _ => false
+  | .ok o => o.wire.lensExact && o.d1.root.lensExact && o.d2.root.lensExact && o.d1.clone.lensExact && o.d2.clone.lensExact
+
+/-- **repaired: on all eight rows both editors converge, agree on `Tree.Len()`, and every copy (root and clone of both,
+    and the wire copy) holds EXACT cached lengths** (before the repair d2 ended inexact on each of them) -/
+theorem stale_length_rows_fixed :
+    ∀ i ∈ staleRows, converges (row i) = true ∧ lensAgree (row i) = true ∧ lensExactBoth (row i) = true := by
   decide +kernel
 
 /-- `c19-x-merge` (outside the fixed quantifier: the upstream matrix contains no merging pair): with a
@@ -222,18 +258,25 @@ theorem findpos_after_element_diverge_fixed :
      | .error _ => false) = true := by
   decide +kernel
 
-/-- `c19-path-tombstone`: after deleting 'a' from `<r><p>ab</p></r>`, index 1 converts to a path that
-    converts back to index 2 (`TreePosToPath` indexes the tombstone-filtered child list with the raw
-    child offset) -/
-theorem path_tombstone_witness :
-    (match localCall (pTree [⟨0, [114], [], []⟩, ⟨1, [112], [], []⟩, ⟨2, textType, [97, 98], []⟩])
-        (ChangeID.initial.setActor 1 |>.next |>.next) (.edit 1 2 [] 0) with
-     | .ok (some (t, _)) =>
-       (match t.indexToPath 1 with
-        | .ok p => (match t.pathToIndex p with | .ok i => i == 2 | .error _ => false)
-        | .error _ => false)
-     | _ => false) = true := by
-  decide +kernel
+/-! `c19-path-tombstone` (repaired: hooks/fix-c19-path-tombstone.patch, c7104fed; switch `fixPathTombstone` of Model/Tree.lean) -/
+
+/-- `<r><p>ab</p></r>` after deleting 'a': index 1 -> path -> index, with (`true`) / without (`false`) the repair -/
+def pathAfterTombstone (fix : Bool) : Option Int :=
+  match localCall (pTree [⟨0, [114], [], []⟩, ⟨1, [112], [], []⟩, ⟨2, textType, [97, 98], []⟩])
+      (ChangeID.initial.setActor 1 |>.next |>.next) (.edit 1 2 [] 0) with
+  | .ok (some (t, _)) =>
+    (match t.indexToPathW fix 1 with
+     | .ok p => (match t.pathToIndex p with | .ok i => some i | .error _ => none)
+     | .error _ => none)
+  | _ => none
+
+/-- before the repair: index 1 converted to a path that converts back to index 2 (`TreePosToPath` indexed the
+    tombstone-filtered child list with the raw child offset) -/
+theorem path_tombstone_witness_off : pathAfterTombstone false = some 2 := by decide +kernel
+
+/-- repaired: index -> path -> index is the identity there -/
+theorem path_tombstone_fixed : pathAfterTombstone true = some 1 := by decide +kernel
+
 
 
 /-! ### unbounded theorems about the tree model (every tree, every operation - not only the table)
@@ -310,15 +353,15 @@ theorem style_style_raw_witness :
     look (s.apply ⟨2, 1, 1⟩ (r.apply ⟨3, 1, 2⟩ old)) [98] = look (r.apply ⟨3, 1, 2⟩ (s.apply ⟨2, 1, 1⟩ old)) [98] :=
   raw_registers_do_not_commute
 
-/-- exact cached lengths are NOT an invariant (1): on row 1223 both editors start exact, end with the same XML, and
-    d2 - which applies the remote split to a paragraph it has tombstoned - ends inexact (d1 stays exact) -/
-theorem lens_exact_witness_split_tombstone :
+/-- exact cached lengths WERE not an invariant (1): `stale_length_witness_off` (a remote split applied to a tombstoned
+    paragraph); repaired, `stale_length_rows_fixed`: on row 1223 every copy now ends exact -/
+theorem lens_exact_split_tombstone_fixed :
     (match runCase (row 1223) with
-     | .ok o => o.wire.lensExact && o.d1.root.lensExact && !o.d2.root.lensExact
+     | .ok o => o.wire.lensExact && o.d1.root.lensExact && o.d2.root.lensExact
      | .error _ => false) = true := by
   decide +kernel
 
-/-- exact cached lengths are NOT an invariant (2): splitting the text "\U0001F600ab" after 'a' (UTF-16 offset 3)
+/-- exact cached lengths are NOT an invariant (the remaining reason, listed finding c19-surrogate): splitting the text "\U0001F600ab" after 'a' (UTF-16 offset 3)
     leaves the left half with the rune count 2 as its length -/
 theorem lens_exact_witness_surrogate :
     (let t := initialTree 1 [⟨0, [114], [], []⟩, ⟨1, [112], [], []⟩, ⟨2, textType, [0xD83D, 0xDE00, 97, 98], []⟩]
